@@ -43,6 +43,8 @@ func RunWorld(sc *Scenario, w *World, replay bool, trace bool) (out RunOut) {
 	dec := NewDec(w.Cfg, rng, rp)
 	x := NewX(w, dec)
 	x.Trace = trace
+	x.Replay = replay
+	x.genRng = NewRng(Mix(w.Seed, 0x9e3779))
 	out.X = x
 	func() {
 		defer func() {
